@@ -6,7 +6,7 @@
 From Coq Require Import List Arith NArith Bool Lia.
 Import ListNotations.
 From S4.Model Require Import Retain.
-From S4.Proofs Require Import RetainProofs RetainLayout RetainLag RetainKeepsUp RetainNoErr RetainFar RetainFarConv RetainFarExact.
+From S4.Proofs Require Import RetainProofs RetainLayout RetainLag RetainKeepsUp RetainNoErr RetainFar RetainFarFifo RetainFarConv RetainFarExact RetainNoEdge.
 From S4.Proofs Require RetainCachesLayout.
 Open Scope N_scope.
 
@@ -28,4 +28,35 @@ Proof.
   intros Hc Hl Hlag Hf ms s.
   exact (cur_far_bounded bs (max_span ms) (max_lines ms) lag ms c Hc (layout_msgs_wf bs layout Hl) Hlag
            (RetainCachesLayout.layout_keys bs layout) (farb_sound lag ms Hf)).
+Qed.
+
+(* OUTSIDE THE RECORDED CLASSES THE PROPERTY HOLDS FOR THE CURRENT POLICY: a well-formed message sequence in
+   which no drop reaches a message found fewer than lag messages earlier (not F9a) and no line ends on the
+   last byte of a block (not F9b), under every first-in-first-out schedule of a consumer that never
+   references more than lag messages: no release fails and ALL three marks obey the bounds of the
+   repaired policy, which do not depend on the number of messages. *)
+Theorem cur_outside_classes_bounded bs span ml lag ms c evs : pol c = P_cur -> wf bs span ml ms -> 1 <= lag ->
+  map mkey ms = nseq 0 (length ms) -> far lag ms -> no_edge ms -> fifo evs ->
+  sched_ok lag c (init ms) evs = true ->
+  let s := run c (init ms) evs in
+  derr s = 0 /\ hs s <= bound_syslines bs span /\ hl s <= bound_lines bs span ml lag /\
+  hb s <= bound_blocks bs span lag.
+Proof.
+  intros Hc Hwf Hlag Hk Hfar Hne Hfifo Hs s.
+  assert (Hd : derr s = 0) by exact (cur_far_no_err_fifo c lag ms evs Hlag Hk Hfar Hfifo Hs).
+  split; [exact Hd|].
+  exact (cur_no_err_no_edge_bounded bs span ml lag ms c evs Hc Hwf Hne Hs Hd).
+Qed.
+
+(* ... for every layout, with the decidable forms the check evaluates *)
+Theorem layout_outside_classes_bounded bs layout c lag evs : pol c = P_cur -> layout_ok bs layout -> 1 <= lag ->
+  let ms := layout_msgs bs layout in
+  farb lag ms = true -> no_edgeb ms = true -> fifo evs -> sched_ok lag c (init ms) evs = true ->
+  let s := run c (init ms) evs in
+  derr s = 0 /\ hs s <= bound_syslines bs (max_span ms) /\ hl s <= bound_lines bs (max_span ms) (max_lines ms) lag /\
+  hb s <= bound_blocks bs (max_span ms) lag.
+Proof.
+  intros Hc Hl Hlag ms Hf Hne Hfifo Hs.
+  exact (cur_outside_classes_bounded bs (max_span ms) (max_lines ms) lag ms c evs Hc (layout_msgs_wf bs layout Hl) Hlag
+           (RetainCachesLayout.layout_keys bs layout) (farb_sound lag ms Hf) (no_edgeb_sound ms Hne) Hfifo Hs).
 Qed.
